@@ -217,6 +217,23 @@ class C14(Cfg):
             return "TI:" + ("refused" if ans == "none" else "kind" + ans.split(" ", 1)[0])
         return op
 
+    def spec_ok(self, req, ans, spec):
+        """TI: the crate accepts exactly the words the layout Spec supports (Spec/TypeInfo.lean) and its
+        re-encoding differs from the word only inside the Spec's unused-bit mask for that kind"""
+        t = req.split()
+        if t[0] != "TI":
+            return True
+        if spec == "reject":
+            return ans == "none"
+        if ans == "none" or ans.startswith("PANIC"):
+            return False
+        mask = int(spec.split("mask=")[1])
+        m = re.search(r" re=(\d+)", ans)
+        if not m:
+            return False
+        w = int(t[1])
+        return ((int(m.group(1)) ^ w) & ~mask & 0xFFFFFFFF) == 0
+
 
 class C15(Cfg):
     rule = ("ARGLEN <argument> (well-formed arguments of every kind, both byte orders), NEW <config> (Message::new for "
@@ -280,6 +297,13 @@ class C18(Cfg):
 
     def classify(self, req, ans, m=None):
         return "REAL:" + ans.split(" ", 1)[0]
+
+    def spec_ok(self, req, ans, spec):
+        """the crate's answer against Spec/Fixed.lean (exact dyadic arithmetic where double precision is
+        exact): `none` where the property demands nothing, the exact sum where it demands one"""
+        if spec == "skip":
+            return True
+        return ans == spec
 
 
 class C19(Cfg):
